@@ -350,7 +350,13 @@ class EngineBase:
             return v if isinstance(v, VExt) else None
         if kind is BOOL:
             return v if isinstance(v, VBool) else None
+        if kind is STR:
+            if isinstance(v, VStr):
+                return self.str_const(v.s)
+            return v if isinstance(v, VObj) else None
         if isinstance(kind, OBJ):
+            if isinstance(v, VStr) and kind.classes == ('str',):
+                return self.str_const(v.s)
             return v if isinstance(v, VObj) else None
         if isinstance(kind, ENUM):
             return v if isinstance(v, VEnum) else None
